@@ -281,6 +281,49 @@ class PatchLines(Contract):
         return {"lines": lines, "patches": patches.val}
 
 
+# R-18a  what the command patterns accept (the contracts above share the match with the code as an uninterpreted function):
+#   _patch_re.match / _patch_re_b.match succeed exactly on  digits [',' digits] ('a' | 'c' | 'd') [newline]  - nothing else is
+#   a command, so every other line is "malformed" and raises ValueError.
+SPEC_CMD = re.compile(r"\d+(?:,\d+)?(?:a|c|d)\n?")
+SPEC_CMD_B = re.compile(rb"[0-9]+(?:,[0-9]+)?(?:a|c|d)\n?")
+
+
+def command_language(ctx):
+    from vf import rx
+    from vf.pyvc import extract
+    from vf.runner import Unsupported
+    mod = extract.load(MOD)
+    real = mod.real()
+    for nm, spec in (("_patch_re", SPEC_CMD), ("_patch_re_b", SPEC_CMD_B)):
+        pat = getattr(real, nm, None)
+        fq = MOD + ":" + nm
+        if pat is None:
+            ctx.mark_unproved(fq, "module-level pattern %s is gone" % nm)
+            continue
+        ctx.function_under_contract(fq, "%r flags=%d" % (pat.pattern, pat.flags))
+        try:
+            env = rx.Env(is_bytes=isinstance(pat.pattern, bytes))
+            p = env.add(pat, name=nm)
+            sp = env.add(spec, name="ed command (specification)")
+            env.add_chars("acdACD,\n 0")
+            env.finalize()
+            code, want = env.lang(p, "match"), env.lang(sp, "fullmatch")
+        except Unsupported as e:
+            ctx.mark_unproved(fq, "unsupported: %s" % e)
+            continue
+
+        def replay(model, env=env, pat=pat, spec=spec):
+            w = env.realize(model.get("w", ""))
+            if isinstance(pat.pattern, bytes):
+                w = w.encode("latin-1", "replace") if isinstance(w, str) else w
+            got, exp = pat.match(w) is not None, spec.fullmatch(w) is not None
+            return {"confirmed": got != exp, "line": repr(w), "pattern_accepts": got, "is_a_command": exp}
+        smt, var = env.claim_equal(code, want)
+        ctx.vc("R-18a %s.match accepts exactly the ed commands (digits[,digits](a|c|d)[newline])" % nm, fq, smt, theory="str",
+               model_vars=[var], replay=replay, kind="rx")
+    ctx.solve()
+
+
 def run(ctx):
     for kind in ("str", "bytes"):
         w = build_world(kind)
@@ -310,6 +353,7 @@ def run(ctx):
             w.add_contract(c)
         verify_contracts(ctx, w, cs, {})
     ctx.solve()
+    command_language(ctx)
     run_bounded(ctx)
     ctx.level = "other"
     ctx.explanation = (
@@ -317,7 +361,8 @@ def run(ctx):
         "recursive spec parser ed_patches and raises ValueError exactly when the script is not well formed (bad "
         "command, 'a' with a range, unterminated text block, explicit empty string); patch_lines is the fold of Python "
         "slice assignments over the patches. The command regex is shared between code and spec as uninterpreted "
-        "(matches?, groups) functions; what the pattern accepts is covered by the bounded part. BOUNDED: end-to-end "
+        "(matches?, groups) functions; R-18a proves on the real pattern objects (str and bytes) that they accept exactly the lines "
+        "digits[,digits](a|c|d)[newline] - every other line is a malformed command. BOUNDED: end-to-end "
         "application against two independent differs; the link 'slice assignment of triple(cmd) == POSIX ed meaning'.")
     ctx.assumptions += ["A-SEM", "A-GEN: the generator is consumed by a single consumer that does not mutate `source`",
                         "recursive spec functions ed_ok/ed_patches/ed_block_end/ed_fold terminate (index increases)",
@@ -460,7 +505,7 @@ def bounded_ed(ctx):
                            and (i == 0 or script[i - 1] == ".\n" or re.fullmatch(r"\d+(,\d+)?d\n", script[i - 1]))]
                 bad = []
                 i = rng.choice(cmd_idx)
-                for repl in ("q\n", "1x\n", "a\n", "1,2a\n", "-1d\n", "1 d\n"):
+                for repl in ("q\n", "1x\n", "a\n", "1,2a\n", "-1d\n", "1 d\n", script[i].upper(), "1D\n", " 1d\n", "1d \n", "1,d\n"):
                     bad.append(script[:i] + [repl] + script[i + 1:])
                 if script[-1] == ".\n":
                     bad.append(script[:-1])                 # unterminated last text block
